@@ -291,6 +291,20 @@ func (g *xGen) fieldsValueX(op *hOp) {
 	}
 	for _, of := range fields {
 		f := of.f
+		if f.Via == "req" {
+			// a field the strategy persists with SetRequiredString: the generator always supplies a value (the refusal of
+			// an empty required value is field validation, which the store machine does not model)
+			switch {
+			case g.fkTarget(of.owner, f.Name) != "":
+				op.F[f.Name] = sp(g.pickFrom(g.sortedAlive(g.rootOf(g.fkTarget(of.owner, f.Name)))))
+			case g.isUnique(of.owner, f.Name) && !g.r.chance(22):
+				g.fresh++
+				op.F[f.Name] = sp(fmt.Sprintf("u%d", g.fresh))
+			default:
+				op.F[f.Name] = sp(xSmallVals[g.r.intn(3)])
+			}
+			continue
+		}
 		if t := g.fkTarget(of.owner, f.Name); t != "" {
 			troot := g.rootOf(t)
 			switch {
